@@ -285,6 +285,27 @@ def run(ctx):
                "slot table and name table are displays evaluated in the "
                "constructor")
 
+    from rules.common import crosscheck_many
+    crosscheck_many(ctx, "C13.R5", [
+        ("ZConfig.matcher.SchemaMatcher.__init__", "schemamatcher_init",
+         "ZConfig.matcher.SchemaMatcher",
+         "a fresh handler list per top-level matcher"),
+    ], ref_file="ref_matcher.py")
+    crosscheck_many(ctx, "C13.R5", [
+        (LD + ".ConfigLoader.__init__", "configloader_init",
+         LD + ".ConfigLoader", "per-loader state starts empty"),
+        (LD + ".SchemaLoader.__init__", "schemaloader_init",
+         LD + ".SchemaLoader", "own registry and cache per loader"),
+        (LD + ".loadSchema", "loadSchema", None, "a new loader per call"),
+        (LD + ".loadSchemaFile", "loadSchemaFile", None,
+         "a new loader per call"),
+        ("ZConfig.datatypes.Registry.__init__", "registry_init",
+         "ZConfig.datatypes.Registry",
+         "the stock table is copied per registry"),
+        ("ZConfig.datatypes.MemoizedConversion.__init__", "memo_init",
+         "ZConfig.datatypes.MemoizedConversion", "memo starts empty"),
+    ])
+
     # R6
     sites, mut, reach = load_phase_sites(ctx)
     bad = []
